@@ -12,56 +12,98 @@ ID = 'C10'
 HANG_CLAUSE = 'total'     # the property promises termination: a case that does not return is a failing input
 CASE_TIMEOUT = 10
 LEAN_MODULES = ['PybtexModel.Props.C10']
-DRV = ['C01']     # uses the bibparse op of the C01 driver module
+DRV = ['C01', 'C10']     # the bibparse op of the C01 driver module, c10case of its own
 THEOREMS = {
     'C10_total': 'total: for every text, mode, wanted-set, macro table the reader model never runs out of fuel or takes an impossible branch (no error of kind internal reported or raised); when nothing is raised the whole text was read (no "@" left)',
     'C10_total_wellnested': 'total: with well nested initial macro values (the month names are) the BibTeXError of Person() (nesting > 100) is never reported or raised, so continue mode raises nothing at all: values read are balanced and at most 100 deep, every name piece is a segment of such a value',
-    'C10_located': 'located: every syntax error reported or raised carries a line number l with 1 <= l <= 1 + number of line breaks of the text',
+    'C10_located': 'located (bounds): every syntax error reported or raised carries a line number l with 1 <= l <= 1 + number of line breaks of the text',
+    'C10_located_exact': 'located (exact): the reader records with every problem the unread text at the moment it was handed to handle_error (the pos of error_context_info); for EVERY reported syntax error and for the one raised in strict mode: that text b is a suffix of the input, the line carried is 1 + line breaks of the input - line breaks of b (= 1 + line breaks of the consumed prefix unless the cut falls inside a CRLF), and for TokenRequired b is non-empty and starts with the offending non-white-space character',
+    'C10_located_data_neg': 'located fails for the data errors: DuplicateField, repeated bibliography entry and InvalidNameString are reported with no line at all (kernel-evaluated witness) - known finding C10-data-errors-not-located',
     'C10_modes': 'modes: continue mode raises nothing (but the BibTeXError of Person()); strict mode ends exactly like continue mode when nothing was reported, else raises the first reported problem',
     'C10_prefix_stable': 'confined_before: entries, preamble and problems present after the first k commands are initial segments of those of the complete run (only ever appended)',
+    'C10_confined_before_text': 'confined_before (textual): for every well-formed document rendering (C01: WFD d L, repeated keys / field names allowed) followed by ANY text x, the entries, preamble items and problems of the document are initial segments of what is read from render d L ++ x in continue mode; in strict mode (document without problems) its entries and preamble are an initial segment of the database the reader stops with, also when it raises on x',
     'C10_confined_step': 'confined: every command, malformed or not, appends at most one entry and one preamble item to what was read before it and changes nothing else in these lists (a malformed entry leaves at most one partial entry)',
     'C10_scan_local': 'confined_after/locality: every scanner and parse function of LowLevelParser (get_token, required, parse_value_part with nested strings, parse_value, parse_field, parse_entry_body, parse_string_body) is local: if its run on text a did not hit the end of the text (no PrematureEOF) and stopped before it (a character left unread, or a syntax error), then on a ++ c, for every c, it returns the same value / same located error / same state changes and leaves c unread',
     'C10_round_local': 'confined_after/locality: one whole round of the command loop (skip to "@", parse_command with its handle_error, process_entry/process_preamble, handle_error of the loop) on text a that finds its "@" and neither reports nor raises PrematureEOF has, on a ++ c for EVERY c, the same outcome (same entry/preamble item appended, same problems with the same lines, same macro table) with c left unread',
     'C10_round_local_neg': 'confined_after/locality: "the round stopped with a non-empty unread rest" alone is not enough: PrematureEOF inside a string is raised without consuming the scanned text (kernel-evaluated witness "@a{k, t = {x y" vs "@a{k, t = {x y}}"; pybtex does the same)',
     'C10_resync': 'confined_after/resynchronisation: unread text without "@" in front of a continuation c is skipped - the next round behaves exactly as on c alone, the line counter advanced by the line breaks skipped; if c has no "@" either the loop stops',
-    'C10_round_independent': 'confined_after/independence: a round does not depend on the entries, preamble items and problems collected before, nor on the absolute line number (lines of new problems shift along), except for the repeated-key check of add_entry: from a state with other problems/preamble items in front and entries inserted the round has the same outcome unless it reports a repeated entry for a key (compared by lower) of an inserted entry',
+    'C10_round_independent': 'confined_after/independence: a round does not depend on the entries, preamble items and problems collected before, nor on the absolute line number (lines of new problems shift along), except for the repeated-key check of add_entry: from a state with other problems/preamble items in front and entries inserted the round has the same outcome unless it reports a repeated entry for a key (compared by str.lower(), keyFold) of an inserted entry',
     'C10_confined_after': 'confined_after (positive, all states/texts): if the round on bad ALONE goes on, reports no PrematureEOF and leaves unread text without "@", then in the run on bad ++ post everything read from post - entries, preamble items, problems (lines shifted by the line breaks before post), raised error - is exactly what the run on post alone produces, started with the macro table / wanted-set / unnamed counter as bad left them; exceptions: (a) the at most one partial entry of bad, (b) hypothesis: no later repeated-entry report for that entry\'s key',
     'C10_confined_after_partial': 'confined_after (positive): if moreover the round on bad left macro table, wanted-set and unnamed-entry counter unchanged, the run on post alone is the plain run from the same state: a self-contained malformed entry alters nothing read after it (apart from its own partial entry and later entries reusing its key)',
     'C10_confined_after_head': 'confined_after (positive, whole texts): for a malformed command at the head of the text that is self-contained in the sense of C10_confined_after_partial, parse_string(bad ++ post) yields what the round on bad yielded followed by exactly what parse_string(post) yields (problem lines shifted by the line breaks of bad), in every mode / wanted-set / macro table',
+    'C10_confined_syntactic': 'confined_after (positive, SYNTACTIC premise): C10_confined_after_partial with both operational hypotheses about the text (no PrematureEOF, no "@" left unread) replaced by the decidable predicate SelfContained bad: exactly one "@", the first bracket behind it is "{" and that brace is closed within bad by brace counting - quotes need not be balanced (an unclosed quoted string runs into the brace: "unbalanced braces"); still assumed: the loop goes on after the round, bad hands on neither macros nor wanted-set nor unnamed counter, no later entry reuses the key of its partial entry',
+    'C10_selfContained_round': 'confined_after/bridge: from any loop-top state, in either mode, the round on a SelfContained command reports no PrematureEOF and leaves no "@" unread; in continue mode the loop goes on after it unless Person() raises its nesting error',
+    'C10_confined_syntactic_at': 'confined_after/bridge: what a round leaves unread is a suffix of the text behind the "@" it started at, so a command with exactly one "@" leaves no "@" unread (hat from syntax)',
+    'C10_confined_syntactic_flat': 'confined_after (positive, syntactic): the instance for flat commands "@ name { body } ws" whose body contains none of { } " @',
     'C10_confined_after_unnamed_neg': 'confined_after: the unnamed-entry counter IS handed on - "@misc{ }" makes a later keyless (itself malformed) entry unnamed-2 instead of unnamed-1 (kernel-evaluated witness, same in pybtex) - the hypothesis of C10_confined_after_partial cannot be dropped',
     'C10_confined_after_wanted_neg': 'confined_after: with wanted_entries the partial entry left by a malformed command still pulls in its crossref target (kernel-evaluated witness, same in pybtex) - the wanted-set hypothesis of C10_confined_after_partial cannot be dropped',
     'C10_confined_lone_at_neg': 'confined_after also fails for a malformed command that is a lone "@": "@" is in NAME_CHARS, the next command is read as an entry of type "@misc" and nothing is reported (kernel-evaluated witness) - NEW finding, the restricted C10_confined_partial of DESIGN.md is false as stated',
+    'C10_confined_next_at_neg': 'confined_after fails whenever the "@" of the NEXT command is read as an identifier character: "@misc" directly followed by "@misc{z,...}" gives an entry of type "misc@misc" and no report; "@a(k)" reads "@b" as a field name and loses the next entry (kernel-evaluated witnesses) - known finding C10-next-at-read-as-identifier (generalises the lone "@")',
     'C10_confined_neg': 'confined_after fails with an "@" inside the malformed entry: witness evaluated in the kernel (bogus entry shadows a later real one) - known finding C10-at-inside-malformed-entry',
 }
-RULE = ('every string up to the tier length over the token alphabet {@ a 1 { } ( ) " , = # space newline}; every single token-level '
-        'corruption (delete, duplicate, replace by each token kind, truncate) of one entry of rendered well-formed documents; seeded random '
-        'Unicode text; each in capture, strict and non-strict mode; non-trivial = text containing "@"; distinct by case JSON')
-TRUSTED = ['stderr text of non-strict mode is observed through pybtex.io.stderr redirection']
-ASSUMPTIONS = ['no non-ASCII letters in identifiers']
+RULE = ('every string up to the tier length over the token alphabet {@ a b 0 1 { } ( ) " , = # ~ space LF CR}; person fields holding every string of <= 3 name '
+        'pieces; every single token-level corruption (delete, duplicate, replace by each token kind, truncate) of one entry of hand-written and of generated '
+        'well-formed documents (split context / corrupted command / rest); the same with wanted_entries; seeded random Unicode text; each in capture, strict '
+        'and non-strict mode; non-trivial = text containing "@"; distinct by case JSON')
+TRUSTED = ['stderr text of non-strict mode is observed through pybtex.io.stderr redirection',
+           'the entry-point scan of importlib.metadata behind pybtex.plugin.find_plugin is memoised per process (c01.fast_plugin_lookup)']
+ASSUMPTIONS = ['entry keys are folded with str.lower() character by character (Model/UniCase.lean): no U+0130 and no U+03A3 in the generated texts',
+               'with wanted_entries the wanted-set is the ASCII-folding CaseInsensitiveSet model: wanted keys and crossref values are ASCII in the generated cases, and the '
+               'texts contain no non-ASCII character whose lower case is ASCII (Kelvin sign U+212A) when a wanted-set is given']
 SERIAL = False
 
-ALPHA = ['@', 'a', '1', '{', '}', '(', ')', '"', ',', '=', '#', ' ', '\n']
 REPL = ['@', '{', '}', '(', ')', '"', ',', '=', '#', 'x', '1', ' ']
 
 
-def _run_mode(text, mode):
+def _err(e):
+    """([class, line, message], position): the position (code points consumed when the error was raised) is the third
+    component of PybtexSyntaxError.error_context_info; data errors carry none."""
+    from pybtex.scanner import PybtexSyntaxError
+    c = c01.canon_error(e)
+    pos = None
+    if isinstance(e, PybtexSyntaxError):
+        info = getattr(e, 'error_context_info', None)
+        if info is not None:
+            pos = info[-1]
+    return c, pos
+
+
+def _capture(text, wanted):
+    from pybtex import errors
+    from pybtex.database import parse_string
+    c01.fast_plugin_lookup()
+    try:
+        with errors.capture() as captured:
+            db = parse_string(text, 'bibtex', wanted_entries=wanted)
+        entries, preamble = c01.canon_db(db)
+        errs = [_err(e) for e in captured]
+        return {'entries': entries, 'preamble': preamble, 'errors': [e for e, _p in errs], 'raised': None,
+                'errpos': [p for _e, p in errs], 'raisedpos': None}
+    except Exception as e:  # noqa
+        c, pos = _err(e)
+        return {'entries': None, 'preamble': None, 'errors': None, 'raised': c, 'errpos': None, 'raisedpos': pos}
+
+
+def _run_mode(text, mode, wanted=None):
     import pybtex.io
     from pybtex import errors
     from pybtex.database import parse_string
     old_strict, old_code, old_err = errors.strict, errors.error_code, pybtex.io.stderr
+    c01.fast_plugin_lookup()
     try:
         if mode == 'capture':
-            return c01.parse_capture(text)
+            return _capture(text, wanted)
         errors.set_strict_mode(mode == 'strict')
         errors.error_code = 0
         buf = _io.StringIO()
         pybtex.io.stderr = buf
         try:
-            db = parse_string(text, 'bibtex')
+            db = parse_string(text, 'bibtex', wanted_entries=wanted)
             entries, preamble = c01.canon_db(db)
-            r = {'entries': entries, 'preamble': preamble, 'raised': None}
+            r = {'entries': entries, 'preamble': preamble, 'raised': None, 'raisedpos': None}
         except Exception as e:  # noqa
-            r = {'entries': None, 'preamble': None, 'raised': c01.canon_error(e)}
+            c, pos = _err(e)
+            r = {'entries': None, 'preamble': None, 'raised': c, 'raisedpos': pos}
         if mode == 'nonstrict':
             r['warnings'] = sum(1 for l in buf.getvalue().split('\n') if 'WARNING: ' in l)
             r['error_code'] = errors.error_code
@@ -78,31 +120,42 @@ def text_of(case):
 
 def impl(case):
     text = text_of(case)
-    out = {m: _run_mode(text, m) for m in ('capture', 'strict', 'nonstrict')}
+    wanted = case.get('wanted')
+    out = {m: _run_mode(text, m, wanted) for m in ('capture', 'strict', 'nonstrict')}
     if 'pre' in case:
-        out['ctx'] = {'pre': c01.parse_capture(case['pre']), 'clean': c01.parse_capture(case['pre'] + case['post'])}
+        out['ctx'] = {'pre': _capture(case['pre'], wanted), 'clean': _capture(case['pre'] + case['post'], wanted),
+                      'prebad': _capture(case['pre'] + case['bad'], wanted)}
     return out
 
 
 def to_request(case):
-    return {'op': 'bibparse', 'text': text_of(case), 'strict': False, 'wanted': None, 'both': True}
-
-
-def model_out(case, reply):
-    return reply['out']
-
-
-def compare_view(io):
-    """What is compared with the model: capture result and strict result."""
-    s = io['strict']
-    strict = {'raised': s['raised']} if s['raised'] is not None else {'raised': None, 'entries': s['entries'], 'preamble': s['preamble']}
-    return {'capture': io['capture'], 'strict': strict}
+    if 'pre' in case:
+        return {'op': 'c10case', 'pre': case['pre'], 'bad': case['bad'], 'post': case['post'], 'wanted': case.get('wanted')}
+    return {'op': 'bibparse', 'text': text_of(case), 'strict': False, 'wanted': case.get('wanted'), 'both': True}
 
 
 def _strict_view(m):
     if m['raised'] is not None:
-        return {'raised': m['raised']}
+        return {'raised': m['raised'], 'raisedpos': m['raisedpos']}
     return {'raised': None, 'entries': m['entries'], 'preamble': m['preamble']}
+
+
+def compare_view(io):
+    """What is compared with the model: capture result and strict result, with the positions of the located errors."""
+    return {'capture': io['capture'], 'strict': _strict_view(io['strict'])}
+
+
+_COVER = {}     # id(case) -> cover part of the reply (set by model_out, read by buckets: same process, same case object)
+
+
+def model_out(case, reply):
+    m = reply['out']
+    if 'cover' in reply:
+        _COVER[id(case)] = reply['cover']
+    cap = dict(m['capture'])
+    if cap['raised'] is not None:      # the BibTeXError of Person() leaves the reader in every mode: nothing else is observable
+        cap = {'entries': None, 'preamble': None, 'errors': None, 'raised': cap['raised'], 'errpos': None, 'raisedpos': cap['raisedpos']}
+    return {'capture': cap, 'strict': _strict_view(m['strict'])}
 
 
 def braces_and_quotes_balanced(m):
@@ -130,11 +183,44 @@ def braces_and_quotes_balanced(m):
     return d == 0 and not in_str and m.count('(') == m.count(')')
 
 
+SYNTAX_CLASSES = ('TokenRequired', 'PrematureEOF', 'PybtexSyntaxError', 'UndefinedMacro')
+DATA_CLASSES = ('DuplicateField', 'BibliographyDataError', 'InvalidNameString')
+
+
+def count_nl(s):
+    """line breaks as Scanner.update_lineno counts them: CRLF is one"""
+    return len(re.findall(r'\r\n|\r|\n', s))
+
+
+def _located(fails, text, what, e, pos_model, pos_impl):
+    """The clause "errors carry the line of the offending construct" for one syntax error: the line must be the line of
+    the position at which the error was raised = 1 + line breaks of the text consumed up to there (C10_located_exact).
+    The position is the one the error object itself carries (error_context_info); when it carries none, the position
+    the reader model gives for the same problem.  (An error raised at ANOTHER position than in the model is a
+    disagreement between model and implementation, not a wrong line: it is judged by its own position.)"""
+    nlines = 1 + count_nl(text)
+    if e[1] is None or not (1 <= e[1] <= nlines):
+        fails.append('located: %s %r for %r which has %d lines' % (what, e, text[:200], nlines))
+        return
+    for src, pos in (('its own error_context_info', pos_impl), ('the reader model', pos_model)):
+        if pos is not None and 0 <= pos <= len(text):
+            want = nlines - count_nl(text[pos:])
+            if e[1] != want:
+                fails.append('located: %s %r carries line %d, but it was raised at position %d (according to %s), which is in line %d of %r' % (
+                    what, e, e[1], pos, src, want, text[:200]))
+            return
+
+
+def cover_of(reply):
+    return (reply or {}).get('cover') or {}
+
+
 def oracle(case, io, reply):
     fails = []
     text = text_of(case)
-    nlines = 1 + len(re.findall(r'\r\n|\r|\n', text))
     cap, strict, non = io['capture'], io['strict'], io['nonstrict']
+    mcap = ((reply or {}).get('out') or {}).get('capture') or {}
+    mstrict = ((reply or {}).get('out') or {}).get('strict') or {}
     for mode in ('capture', 'strict', 'nonstrict'):
         r = io[mode]
         if r['raised'] is not None and r['raised'][0].startswith('INTERNAL'):
@@ -143,12 +229,19 @@ def oracle(case, io, reply):
         if not cap['raised'][0].startswith('INTERNAL'):
             fails.append('modes: capture mode raised %r on %r' % (cap['raised'], text[:200]))
         return fails
-    for e in cap['errors']:
+    # the model's position is the reference only where model and implementation report the same problem (class and message)
+    aligned = (mcap.get('errors') is not None and len(mcap['errors']) == len(cap['errors'])
+               and all(m[0] == e[0] and m[2] == e[2] for m, e in zip(mcap['errors'], cap['errors'])))
+    for i, e in enumerate(cap['errors']):
         if e[0].startswith('INTERNAL'):
             fails.append('total: reported a non-pybtex error %r' % (e,))
-        if e[0] in ('TokenRequired', 'PrematureEOF', 'PybtexSyntaxError', 'UndefinedMacro'):
-            if e[1] is None or not (1 <= e[1] <= nlines):
-                fails.append('located: %r reported for %r which has %d lines' % (e, text[:200], nlines))
+        if e[0] in SYNTAX_CLASSES:
+            _located(fails, text, 'reported', e, mcap['errpos'][i] if aligned else None, cap['errpos'][i])
+        elif e[0] in DATA_CLASSES and e[1] is None:
+            fails.append('located: the problem %r is reported without a line [data error without line] for %r' % (e, text[:200]))
+    if strict['raised'] is not None and strict['raised'][0] in SYNTAX_CLASSES:
+        same = mstrict.get('raised') is not None and mstrict['raised'][0] == strict['raised'][0] and mstrict['raised'][2] == strict['raised'][2]
+        _located(fails, text, 'raised (strict mode)', strict['raised'], mstrict.get('raisedpos') if same else None, strict['raisedpos'])
     if non['raised'] is None:
         if non['entries'] != cap['entries'] or non['preamble'] != cap['preamble']:
             fails.append('modes: non-strict and capture mode read different databases from %r' % text[:200])
@@ -164,28 +257,54 @@ def oracle(case, io, reply):
         if strict['raised'] is not None or strict['entries'] != cap['entries']:
             fails.append('modes: strict mode differs from capture mode on error-free %r' % text[:200])
     if 'pre' in case and 'ctx' in io:
+        cov = cover_of(reply)
         pre_e = io['ctx']['pre']['entries'] or []
         clean_e = io['ctx']['clean']['entries'] or []
         got = cap['entries']
+        balanced = case.get('kind') != 'string' and braces_and_quotes_balanced(case['bad'])
         if got[:len(pre_e)] != pre_e:
             fails.append('confined_before: a malformed entry altered the entries before it: pre=%r bad=%r' % (case['pre'][-80:], case['bad']))
-        elif case.get('kind') != 'string' and braces_and_quotes_balanced(case['bad']):
+        elif balanced:
             after_want = clean_e[len(pre_e):]
             after_got = got[len(pre_e):]
             partial_keys = {e['key'].lower() for e in after_got} - {e['key'].lower() for e in after_want}
             rest = [e for e in after_got if e['key'].lower() not in partial_keys]
             if rest != after_want:
-                at_inside = '@' in case['bad'][1:]
+                # the two recorded mechanisms, recognised by what the reader model does on the malformed command ALONE
+                # (driver op c10case): an "@" is left unread behind the point of the error / the command is a lone "@"
+                at_inside = '@' in case['bad'][1:] and cov.get('hround') is True and cov.get('hat') is False
                 lone_at = case['bad'].strip() == '@'
+                # ... / the round that reads the malformed command consumes the "@" of the NEXT command as an identifier character
+                swallowed = cov.get('swallow') is True
                 fails.append('confined_after: a balanced malformed entry altered the entries after it%s: bad=%r got keys %r want keys %r' % (
-                    ' [@ inside the malformed entry]' if at_inside else (' [lone @]' if lone_at else ''), case['bad'],
+                    ' [@ left unread inside the malformed entry]' if at_inside else (' [lone @]' if lone_at else (
+                        ' [@ of the next command read as an identifier]' if swallowed else '')), case['bad'],
                     [e['key'] for e in after_got], [e['key'] for e in after_want]))
+        prebad_e = (io['ctx'].get('prebad') or {}).get('entries')
+        if cov.get('covered') and got[:len(pre_e)] == pre_e and prebad_e is not None and prebad_e[:len(pre_e)] == pre_e:
+            # The premise of the clause in the form in which it is PROVED (C10_confined_syntactic / C10_confined_after_partial): on
+            # the reader model the round on the malformed command alone goes on, reports no PrematureEOF and leaves no "@" unread
+            # (both implied by the syntactic predicate SelfContained: one "@", first bracket "{", that brace closed), hands nothing
+            # on, and no later entry reuses the key of its partial entry.  The conclusion, on the implementation's own results:
+            # behind the entries the implementation reads from pre + bad, the entries are those it reads without bad.
+            nbad = len(prebad_e) - len(pre_e)
+            if got[len(pre_e) + nbad:] != clean_e[len(pre_e):]:
+                fails.append('confined_after: a self-contained malformed command (%s; hypotheses of C10_confined_after_partial hold on the reader model) '
+                             'altered the entries after it: bad=%r got keys %r (the first %d read from the malformed command) want keys %r' % (
+                                 'SelfContained: one "@", its "{" is closed' if cov.get('selfContained') else 'not SelfContained syntactically',
+                                 case['bad'], [e['key'] for e in got[len(pre_e):]], nbad, [e['key'] for e in clean_e[len(pre_e):]]))
     return fails
 
 
 KNOWN_MATCHERS = {
-    'C10-lone-at-swallows-next-command': lambda case, io, f: f.startswith('confined_after:') and '[lone @]' in f,
-    'C10-at-inside-malformed-entry': lambda case, io, f: f.startswith('confined_after:') and '[@ inside the malformed entry]' in f,
+    'C10-lone-at-swallows-next-command': lambda case, io, f: f.startswith('confined_after:') and '[lone @]' in f and case.get('bad', '').strip() == '@',
+    'C10-at-inside-malformed-entry': lambda case, io, f: (f.startswith('confined_after:') and '[@ left unread inside the malformed entry]' in f
+                                                           and '@' in case.get('bad', '')[1:]),
+    'C10-next-at-read-as-identifier': lambda case, io, f: (f.startswith('confined_after:') and '[@ of the next command read as an identifier]' in f
+                                                            and '@' in case.get('post', '')),
+    'C10-data-errors-not-located': lambda case, io, f: (f.startswith('located:') and '[data error without line]' in f
+                                                         and any(('%r' % (e,)) in f for e in (io['capture'].get('errors') or [])
+                                                                 if e[0] in DATA_CLASSES and e[1] is None)),
 }
 
 
@@ -197,7 +316,22 @@ def buckets(case, io):
     else:
         b.append('clean')
     if 'pre' in case:
-        b.append('corruption:' + case.get('cop', '?'))
+        b.append('corruption:' + case.get('cop', '?').split('/')[0])
+        cov = _COVER.pop(id(case), None)
+        if cov is not None:
+            # how many (context, corruption) pairs the positive theorem C10_confined_after_partial covers, and which hypothesis fails otherwise
+            why = 'yes' if cov.get('covered') else 'no:' + next((h for h in ('hround', 'preOk', 'hE', 'hat', 'hmac', 'hun', 'hw', 'hK') if cov.get(h) is False), '?')
+            b.append('theorem-covers:' + why)
+            # the SYNTACTIC premise of C10_confined_syntactic (one "@", first bracket "{", that brace closed by brace counting)
+            b.append('syntactic-premise:' + ('yes' if cov.get('selfContained') else 'no'))
+            if cov.get('selfContained') and cov.get('hround') and not (cov.get('hE') and cov.get('hat')):
+                raise AssertionError('C10_confined_syntactic says SelfContained => hE and hat, the driver evaluates otherwise on %r' % (case,))
+            if case.get('kind') != 'string' and braces_and_quotes_balanced(case['bad']):
+                b.append('balanced&theorem-covers:' + why)
+    if case.get('wanted') is not None:
+        b.append('wanted')
+    if case.get('fam'):
+        b.append('fam:' + case['fam'])
     return b
 
 
@@ -207,11 +341,6 @@ def nontrivial(case, io):
 
 def corpus():
     return corpus_for(ID)
-
-
-def model_out(case, reply):  # noqa: F811
-    m = reply['out']
-    return {'capture': m['capture'], 'strict': _strict_view(m['strict'])}
 
 
 TOKEN_RE = re.compile(r'[A-Za-z0-9_.:/\-]+|\s+|.', re.S)
@@ -234,95 +363,195 @@ BASE_DOCS = [
      '\n@misc{last, note = jv # " x", year = "2001"}\n@misc(last2, note={n})\n'),
     ('@misc{a, t = {x}}\n', '@misc(b, t = "q {"} q" # jan # {z})', '\ntext @comment{c} @misc{c, u = 1}\n'),
     ('', '@string{mac = {val}}', '\n@misc{u, t = mac}\n'),
+    ('@a{p1, t = 0012}\r\n@preamble{"pre"}\r', '@b{k~1, editor = {de la Cruz, Jr, Ana-Mar{\\"\\i}a AND others}, n = 007 # {~}}', '\r@c{q1}\r\n@c(q2 )'),
 ]
+# the same with wanted_entries (the corrupted entry wanted / not wanted / pulled in by a crossref of an entry before it)
+WANTED_DOCS = [
+    (0, ['last', 'MID:2']), (0, ['first', 'last2']), (1, ['*']), (1, ['c']),
+]
+CROSSREF_DOC = ('@misc{a, crossref = {B}, t = {x}}\n', '@misc(b, t = "q" # undefinedmacro # {z}, crossref = "c")', '\n@misc{c, u = undefined2}\n@misc{d, u = undefined3}\n')
+
+ALPHA = ['@', 'a', '1', '{', '}', '(', ')', '"', ',', '=', '#', ' ', '\n', 'b', '0', '\r', '~']
+# name pieces for the person-field family: every string of at most 3 of these is read as an author / editor value
+PTOK = ['~', '-', ',', ' ', 'a', 'A', '{}', '\\', 'and']
+NAME_EXTRA = ['a, b, c, d', ', , ,', ',,,', 'a,,,b', ',,,,', 'a, b, c, d and e, f, g, h', ' and ', ' and  and ', 'and', ' and and and ', 'a and ', ' and a',
+              'and and and', 'a and  and b', '~ and ~', '- and -', '{ and }', ' AND ', 'a And b aNd ~', '~~', '~-~', '\\~', 'a~', '~a', '{~}', '{-}', '-{}-',
+              ',~', '~,', '~,~', '~,~,~', '-,-,-', ' , , ', 'a,b,c', 'A,a,A', 'a A', 'A a', 'a a A', 'a {}', '{} a', '\\ a', 'a\\', '{\\a}', '{\\a} a']
+WANTED_TEXTS = [
+    '@a{k1, t = undef} @a{k2, t = 1}', '@a{k1, crossref = {k3}} @a{k2} @a{k3, t = undef2}', '@a{K1, t = jan # undef}',
+    '@a{k1, t = {x} @a{k2, t = 1}', '@a{k2, t = 1, t = 2} @a{k1, author = {a,b,c,d}}', '@string{m = undef} @a{k1, t = m} @a{k2, t = m}',
+    '@a{k1, t = undef, u = } @a{k2, u = undef # undef}', '@a{k3, t = u1}\n@a{k1, crossref = k3x}\n@a{k3, t = u2}', '@a{k1} @a{K1} @a{k2} @a{k2}',
+    '@a(k2, crossref = "K1") @a{k1, t = u1, crossref = {k3}} @a{k3, t = u3}', '@a{k1, t = "x" u} @a{k2, t = {y} v w}', '@a{, t = u} @a{ } @a{k1, t = v}',
+]
+WANTED_SETS = [[], ['k1'], ['k2'], ['K1', 'k3'], ['*'], ['k1', 'k2', 'k3'], ['unnamed-1'], ['K2', '*']]
+
+
+def _one_corruption(rng, toks):
+    i = rng.randrange(len(toks))
+    op = rng.choice(['delete', 'duplicate', 'replace', 'truncate'])
+    if op == 'delete':
+        return op, toks[:i] + toks[i + 1:]
+    if op == 'duplicate':
+        return op, toks[:i + 1] + toks[i:]
+    if op == 'truncate':
+        return op, toks[:i]
+    return op, toks[:i] + [rng.choice(REPL)] + toks[i + 1:]
 
 
 def gen_cases(tier, rng, info):
     cases = []
-    maxlen = 4 if tier == 'quick' else 5
+    quick = tier == 'quick'
     nstr = 0
-    for n in range(0, maxlen + 1):
+    # -- every short string over the token alphabet
+    full = 3 if quick else 4          # every string up to this length
+    for n in range(0, full + 1):
         for tup in itertools.product(ALPHA, repeat=n):
-            s = ''.join(tup)
-            if n >= 4 and '@' not in s:
-                continue      # without '@' the reader does nothing: keep these for short strings only
-            cases.append({'op': 'bibparse', 'text': s})
+            cases.append({'op': 'bibparse', 'text': ''.join(tup)})
             nstr += 1
+    if quick:                         # one character more: every string of that length with an "@" (without one the reader does nothing)
+        for tup in itertools.product(ALPHA, repeat=full + 1):
+            if '@' in tup:
+                cases.append({'op': 'bibparse', 'text': ''.join(tup)})
+                nstr += 1
+    else:                             # ... with the "@" in the first or second place
+        for tup in itertools.product(ALPHA, repeat=full):
+            cases.append({'op': 'bibparse', 'text': '@' + ''.join(tup)})
+            nstr += 1
+        for c in ALPHA[1:]:
+            for tup in itertools.product(ALPHA, repeat=full - 1):
+                cases.append({'op': 'bibparse', 'text': c + '@' + ''.join(tup)})
+                nstr += 1
+    for h, k in (('@a{', 2 if quick else 3), ('@a{a,', 2), ('@a{a,a=', 2 if quick else 3)):      # ... and behind the head of an entry
+        for tup in itertools.product(ALPHA, repeat=k):
+            cases.append({'op': 'bibparse', 'text': h + ''.join(tup)})
+            nstr += 1
+    # -- person fields: Person() on degenerate names (ties, hyphens, commas, empty groups, lone backslashes, separators only)
+    names = [''.join(t) for n in range(0, 4) for t in itertools.product(PTOK, repeat=n)] + NAME_EXTRA
+    nname = 0
+    for i, nm in enumerate(names):
+        cases.append({'op': 'bibparse', 'text': '@a{k, author = {%s}}' % nm, 'fam': 'person'})
+        nname += 1
+        if not quick or i % 3 == 0:
+            cases.append({'op': 'bibparse', 'text': '@a(k, editor = "%s" # {%s}) @b{j}' % (nm, nm[::-1].replace('}{', '{}')), 'fam': 'person'})
+            nname += 1
     # deep nesting: names and values nested 99 / 100 / 101 / 150 deep (the name scanner has a nesting limit; unbounded recursion is excluded by the property)
     for depth in (99, 100, 101, 150):
         deep = '{' * depth + 'x' + '}' * depth
         for t in ('@a{k, author = %s}' % deep, '@a{k, author = {A %s and B}}' % deep, '@a{k, t = %s # "q"}' % deep, '@a{k, editor = "%s"}' % deep,
                   '@string{m = %s} @a{k, author = m}' % deep):
             cases.append({'op': 'bibparse', 'text': t})
+    # -- (context, corruption) pairs
     ncorr = 0
-    for pre, entry, post in BASE_DOCS:
+    for di, (pre, entry, post) in enumerate(BASE_DOCS):
         kind = 'string' if entry.lower().startswith('@string') else 'entry'
         cs = list(corruptions(entry))
-        if tier == 'quick':
-            cs = cs[::3]
         for cop, bad in cs:
             cases.append({'op': 'bibparse', 'pre': pre, 'bad': bad, 'post': post, 'kind': kind, 'cop': cop})
             ncorr += 1
         # the same document with the three parts on ONE physical line (the next command starts on the line of the error)
         cs = list(corruptions(entry))
-        if tier == 'quick':
-            cs = cs[1::3]
+        if quick:
+            cs = cs[1::2]
         for cop, bad in cs:
-            cases.append({'op': 'bibparse', 'pre': pre.rstrip('\n') + ' ', 'bad': bad, 'post': ' ' + post.lstrip('\n'), 'kind': kind, 'cop': cop + '/same-line'})
+            cases.append({'op': 'bibparse', 'pre': pre.rstrip('\r\n') + ' ', 'bad': bad, 'post': ' ' + post.lstrip('\r\n'), 'kind': kind, 'cop': cop + '/same-line'})
             ncorr += 1
+    nwant = 0
+    for di, wanted in WANTED_DOCS:
+        pre, entry, post = BASE_DOCS[di]
+        cs = list(corruptions(entry))
+        for cop, bad in (cs[2::4] if quick else cs):
+            cases.append({'op': 'bibparse', 'pre': pre, 'bad': bad, 'post': post, 'kind': 'entry', 'cop': cop + '/wanted', 'wanted': wanted})
+            nwant += 1
+    pre, entry, post = CROSSREF_DOC
+    for wanted in (['a'], ['A', 'd'], ['c'], ['*']):
+        cs = list(corruptions(entry))
+        for cop, bad in (cs[1::3] if quick else cs):
+            cases.append({'op': 'bibparse', 'pre': pre, 'bad': bad, 'post': post, 'kind': 'entry', 'cop': cop + '/wanted', 'wanted': wanted})
+            nwant += 1
+    for t in WANTED_TEXTS:
+        for w in WANTED_SETS:
+            cases.append({'op': 'bibparse', 'text': t, 'wanted': w})
+            nwant += 1
     info['exhaustive'] = True
-    info['scope'] = ('%d strings of length <= %d over %r (length >= 4 only with an "@"); %d single-token corruptions of one entry in %d base documents'
-                     % (nstr, maxlen, ALPHA, ncorr, len(BASE_DOCS)))
+    info['scope'] = ('%d strings over %r: every string of length <= %d, every string of length %d with an "@" (thorough: length %d with the "@" in first or second place), 2-3 more '
+                     'characters behind "@a{" / "@a{a," / "@a{a,a="; %d person fields holding every string of <= 3 pieces out of %r (+ %d hand-picked degenerate names), braced and quoted; '
+                     '%d single-token corruptions (delete / duplicate / replace by each token kind / truncate) of one entry in %d base documents, parts on '
+                     'separate lines and on one line; %d cases with wanted_entries (corruptions of wanted / unwanted / cross-referenced entries, undefined '
+                     'macros and data errors in unwanted entries)'
+                     % (nstr, ALPHA, full, full + 1, full + 1, nname, PTOK, len(NAME_EXTRA), ncorr, len(BASE_DOCS), nwant))
+    # -- random
     pool = ALPHA * 3 + ['@misc', '@string', '@preamble', '@comment', 'key', 'title', ' = ', '{a}', '"b"', ' # ', 'jan', 'é', '–', '\r\n', '\r',
-                        ' ', '\x0b', 'author', ' and ', ',,', '{{', '}}', '\\', '%', 'ß', '٣', '@@']
-    for _ in range(2000 if tier == 'quick' else 40000):
-        cases.append({'op': 'bibparse', 'text': ''.join(rng.choice(pool) for _ in range(rng.randint(1, 25)))})
-    for _ in range(300 if tier == 'quick' else 5000):
-        doc = bibgen.gen_doc(rng)
-        text = bibgen.render(doc, bibgen.Layout([], rng))
-        toks = TOKEN_RE.findall(text)
-        if not toks:
+                        ' ', '\x0b', 'author', ' and ', ',,', '{{', '}}', '\\', '%', 'ß', '٣', '@@', '0012', '~', '-', ' AND ', 'editor = {~}', 'key', 'KEY',
+                        '\xa0', '\u2028', '\x85', 'crossref = key', 'b', '李', '@a{\xc4x,}', '@b{\xe4X, t = 1}', '\xc4', '\xe4', '\u01c5', '\u01c6']
+    for i in range(4000 if quick else 100000):
+        c = {'op': 'bibparse', 'text': ''.join(rng.choice(pool) for _ in range(rng.randint(1, 25)))}
+        if i % 5 == 4:
+            c['wanted'] = rng.choice([['key'], ['KEY', 'a'], ['*'], [], ['a', 'b', '1']])
+        cases.append(c)
+    # corrupted renderings of generated documents: one command corrupted, split pre / bad / post at the command (the documents are
+    # valid, i.e. without repeated keys: the property speaks of corruptions of valid renderings)
+    for _ in range(1000 if quick else 20000):
+        doc = bibgen.gen_doc(rng, rich=True, fold_unicode_keys=False)
+        idx = [i for i, c in enumerate(doc) if c['k'] in ('entry', 'string', 'preamble')]
+        if not idx:
             continue
-        i = rng.randrange(len(toks))
-        op = rng.choice(['delete', 'duplicate', 'replace', 'truncate'])
-        if op == 'delete':
-            toks = toks[:i] + toks[i + 1:]
-        elif op == 'duplicate':
-            toks = toks[:i + 1] + toks[i:]
-        elif op == 'truncate':
-            toks = toks[:i]
-        else:
-            toks = toks[:i] + [rng.choice(REPL)] + toks[i + 1:]
-        cases.append({'op': 'bibparse', 'text': ''.join(toks)})
-    # witness of the recorded finding C10-at-inside-malformed-entry (replayed on every run)
+        i = rng.choice(idx)
+        L = bibgen.Layout([], rng)
+        pre, entry, post = (bibgen.render(part, L) for part in (doc[:i], doc[i:i + 1], doc[i + 1:]))
+        toks = TOKEN_RE.findall(entry)
+        lead = ''
+        while toks and toks[0] != '@':      # never the case for a rendered command; keeps bad starting at its "@"
+            lead += toks.pop(0)
+        cop, toks2 = _one_corruption(rng, toks)
+        cases.append({'op': 'bibparse', 'pre': pre + lead, 'bad': ''.join(toks2), 'post': post, 'kind': 'entry' if doc[i]['k'] == 'entry' else 'string',
+                      'cop': cop + '/random'})
+    # documents that repeat keys and field names (not valid renderings: no confinement clause), corrupted anywhere
+    for _ in range(400 if quick else 10000):
+        doc = bibgen.gen_doc(rng, dups=True, rich=True, fold_unicode_keys=True)
+        toks = TOKEN_RE.findall(bibgen.render(doc, bibgen.Layout([], rng)))
+        if toks:
+            cases.append({'op': 'bibparse', 'text': ''.join(_one_corruption(rng, toks)[1])})
+    # witnesses of the recorded findings (replayed on every run)
     cases.append({'op': 'bibparse', 'pre': '@misc{p, t = 1}\n', 'bad': '@misc{k, t = x y @misc{z, u = 1} }', 'post': '\n@misc{z, v = 2}\n',
                   'kind': 'entry', 'cop': 'witness'})
     cases.append({'op': 'bibparse', 'pre': '@misc{p, t = 1}\n', 'bad': '@', 'post': '\n@misc{z, v = 2}\n', 'kind': 'entry', 'cop': 'witness'})
-    if rng.random() < 2:
-        cases.append({'op': 'bibparse', 'text': '@a{k, t = ' + '{' * 100 + 'x' + '}' * 100 + '}'})
-        cases.append({'op': 'bibparse', 'text': '@a{k, t = ' + '{' * 101 + 'x' + '}' * 101 + '}'})
-        cases.append({'op': 'bibparse', 'text': '@a{k, t = ' + '{' * 102 + 'x' + '}' * 102 + '} @b{k2, u = 1}'})
-        cases.append({'op': 'bibparse', 'text': '@a{k, author = "' + '{' * 100 + 'x' + '}' * 100 + ' Y"}'})
+    cases.append({'op': 'bibparse', 'text': '@a{k, t = 1, T = 2}\n@b{K}\n@c{j, author = {a, b, c, d}}'})
+    cases.append({'op': 'bibparse', 'text': '@a{k, t = ' + '{' * 100 + 'x' + '}' * 100 + '}'})
+    cases.append({'op': 'bibparse', 'text': '@a{k, t = ' + '{' * 101 + 'x' + '}' * 101 + '}'})
+    cases.append({'op': 'bibparse', 'text': '@a{k, t = ' + '{' * 102 + 'x' + '}' * 102 + '} @b{k2, u = 1}'})
+    cases.append({'op': 'bibparse', 'text': '@a{k, author = "' + '{' * 100 + 'x' + '}' * 100 + ' Y"}'})
     return cases
 
 
 LEVEL_TEXT = ('Machine-checked proofs (Lean 4) about the function-by-function model of LowLevelParser / Parser (Model/BibParse.lean) for EVERY text, '
               'mode, wanted-set, initial macro table and person-field list: the fuel of every loop suffices and no impossible branch is taken, '
               'so only pybtex error kinds occur and the text is read to its end (C10_total); with well nested initial macro values the nesting '
-              'error of Person() is unreachable (C10_total_wellnested: strings returned by parse_string are balanced and <= 100 deep, '
-              'split_tex_string keeps the brace skeleton); every syntax error carries a line of the text (C10_located, invariant: line counter + '
-              'line breaks of the unread rest = 1 + line breaks of the text); strict reading = continue-mode reading cut at the first reported '
-              'problem, same database when there is none (C10_modes, simulation of the two runs); what was read after k commands is only ever '
-              'extended (C10_prefix_stable), by at most one entry and one preamble item per command, malformed or not (C10_confined_step). Confinement AFTER a malformed entry: "balanced braces and quotes" alone is refuted on two kernel-evaluated witnesses: an "@" inside the '
-              'entry (C10_confined_neg, known finding) and a lone "@" that swallows the "@" of the next command (C10_confined_lone_at_neg). '
-              'The POSITIVE statement is proved for every loop-top state and all texts bad, post (Lemmas/BibLocal.lean, one commutation lemma per function of the model): the reader is local - no function looks beyond '
-              'the character that ends what it consumes (C10_scan_local, C10_round_local; PrematureEOF is the one case where it has seen the end of the text, C10_round_local_neg) -, it resynchronises at the next "@" (C10_resync), and a round '
-              'depends on earlier entries only through the repeated-key check (C10_round_independent); hence (C10_confined_after) if the round on bad alone reports no PrematureEOF and leaves no "@" unread, everything read from post in bad ++ post '
-              'is exactly what is read from post alone, given the macro table / wanted-set / unnamed counter bad left behind (unchanged: C10_confined_after_partial), except for a later entry that reuses the key of the partial entry of bad. '
-              'The unnamed counter and the wanted-set are genuinely handed on (C10_confined_after_unnamed_neg, C10_confined_after_wanted_neg).')
+              'error of Person() is unreachable (C10_total_wellnested); every syntax error, reported or raised, carries EXACTLY the line of the position at '
+              'which it was raised: the model records the unread text with every problem (the pos of error_context_info) and line = 1 + line breaks of the '
+              'text - line breaks of that unread suffix, for TokenRequired the suffix starts with the offending character (C10_located_exact; bounds: C10_located); '
+              'the data errors carry no line (C10_located_data_neg, recorded finding); strict reading = continue-mode reading cut at the first reported '
+              'problem, same database when there is none (C10_modes); what was read after k commands is only ever extended (C10_prefix_stable), by at most one '
+              'entry and one preamble item per command (C10_confined_step); TEXTUALLY: the entries / preamble / problems of a well-formed document rendering are an '
+              'initial segment of what is read from the rendering followed by ANY text (C10_confined_before_text, via the C01 printer/parser proof). Confinement AFTER a '
+              'malformed entry: "balanced braces and quotes" alone is refuted on kernel-evaluated witnesses: an "@" inside the entry (C10_confined_neg), a lone "@" '
+              '(C10_confined_lone_at_neg) and, generally, an "@" of the next command read as an identifier character (C10_confined_next_at_neg); all recorded findings. '
+              'The POSITIVE statement is proved for every loop-top state and all texts bad, post (Lemmas/BibLocal.lean): the reader is local (C10_scan_local, '
+              'C10_round_local, C10_round_local_neg), it resynchronises at the next "@" (C10_resync), a round depends on earlier entries only through the repeated-key '
+              'check (C10_round_independent); hence (C10_confined_after, _partial, _head) if the round on bad alone reports no PrematureEOF and leaves no "@" unread, '
+              'everything read from post in bad ++ post is exactly what is read from post alone, except for a later entry that reuses the key of the partial entry of '
+              'bad; the two hypotheses about the text follow from the syntactic premise SelfContained (C10_confined_syntactic, C10_selfContained_round, C10_confined_syntactic_at, _flat); '
+              'the unnamed counter and the wanted-set are genuinely handed on (C10_confined_after_unnamed_neg, C10_confined_after_wanted_neg). The driver '
+              'evaluates the hypotheses of C10_confined_after_partial for every generated (context, corruption) pair; the harness reports how many pairs the theorem '
+              'covers (histogram "theorem-covers:*") and checks its conclusion on the implementation.')
 LEVEL_NOTE = ('Trusted: Lean kernel; axioms propext/Classical.choice/Quot.sound at most; the hand-written model corresponds to pybtex only as far as '
-              'the differential check explores (every string of length <= 4/5 over the token alphabet, single-token corruptions, random Unicode; capture '
-              'and strict mode). "Never an internal exception/hang" of CPython itself is sampled, not proved. The positive confinement-after theorem is stated for a loop-top state S and a decomposition bad ++ post of its unread text with OPERATIONAL hypotheses on the round on bad alone (no PrematureEOF reported, no "@" left unread); '
-              'a purely syntactic characterisation of such bad (C10_confined_partial of DESIGN.md: balanced, no "@") is false (lone "@"). Not proved: that the reported line EQUALS the line of the offending '
-              'position (only the bounds 1 <= l <= number of lines); prefix stability is stated for the command loop stopped after k rounds, not for '
-              'a decomposition text = a ++ b of the input.')
+              'the differential check explores (every string of length <= 3/4 over a 17-symbol alphabet and longer ones behind "@" / an entry head, person fields over '
+              'every <= 3 name pieces, single-token corruptions of base and random documents, wanted_entries cases, random Unicode; capture and strict mode incl. the '
+              'positions of the errors). "Never an internal exception/hang" of CPython itself is sampled, not proved (a case without result within 10 s is a failing '
+              'input). The positive confinement-after theorem has operational hypotheses on the round on bad alone; the two about the TEXT (no PrematureEOF, no "@" '
+              'left unread) follow from the decidable syntactic predicate SelfContained (C10_confined_syntactic, C10_selfContained_round: exactly one "@", first bracket '
+              '"{", that brace closed by brace counting; parenthesised commands and commands without a body are excluded, cf. C10_confined_next_at_neg); still operational: '
+              'the loop goes on after the round (always in continue mode unless Person() raises) and bad hands on neither macros, wanted-set nor unnamed counter. The '
+              'driver evaluates all hypotheses and the syntactic premise per generated pair (histogram theorem-covers:* / syntactic-premise:*). The three error '
+              'modes of errors.report_error (captured / strict / warning) are one Boolean in the model; capture = non-strict is checked by the oracle only. With '
+              'wanted_entries the wanted-set is the ASCII-folding set model. A change that only adds or drops a report for an entry that is NOT wanted violates no '
+              'clause of this property: it shows as a correspondence break without failing input.')
